@@ -7,11 +7,12 @@
      C18-trie-split-parked   : an insertion splits the node an iterator is parked on (guard_split)
      C18-trie-split-prefix-root : an insertion splits the root node of an open prefix iterator (guard_split_root)
    For the REPAIRED code the safety half of C18 is proved for all interleavings (C18T_no_freed_memory_all_interleavings,
-   no guard needed); the "returned exactly once / at least once" and "dictionary of the survivors" clauses under open
-   iterators are checked on generated interleavings only (correspondence + monitor + ASan). *)
+   no guard needed) and so is the dictionary half (C18T_dictionary_all_interleavings); the "present throughout =>
+   returned, exactly once under removals" clause and prefix iterators are checked on generated interleavings only
+   (correspondence + monitor + ASan). *)
 From Coq Require Import List ZArith.
 Require Import Verif.gen.Consts_trie Verif.MapTrieModel Verif.MapTrieSpec Verif.MapTrieGuards Verif.MapTrieRefuted
-               Verif.MapTrieSafe2 Verif.MapTrieSafe4 Verif.MapTrieSafe5 Verif.MapTrieSafe6.
+               Verif.MapTrieSafe2 Verif.MapTrieSafe4 Verif.MapTrieSafe5 Verif.MapTrieSafe6 Verif.MapTrieSafe8.
 Import ListNotations.
 
 (* a removed-but-parked key is still returned by get, and a put on it is lost when the iterator moves on *)
@@ -90,6 +91,16 @@ Theorem C18T_no_freed_memory_all_interleavings : forall hs, hv [] hs ->
   exists outs t', run FX_ALL trie_init (map sop_op hs) = (outs, Ok t').
 Proof. exact trie_c18_no_freed_memory. Qed.
 Print Assumptions C18T_no_freed_memory_all_interleavings.
+
+(* ... and the map stays a dictionary all the time: every get, rm and count of every such interleaving returns what the
+   dictionary of the entries put and not removed returns - with iterators open on removed entries, after they moved
+   on, after they are gone ("once the iterators are gone the map again behaves exactly like a dictionary holding the
+   surviving entries", and more) *)
+Theorem C18T_dictionary_all_interleavings : forall hs, hv [] hs ->
+  exists outs t', run FX_ALL trie_init (map sop_op hs) = (outs, Ok t') /\
+                  sdict_outs hs (map fst outs) = fst (spec_run [] (sdict_part hs)).
+Proof. exact trie_c18_dictionary_under_iterators. Qed.
+Print Assumptions C18T_dictionary_all_interleavings.
 
 (* non-vacuity: the use-after-free witness of the unrepaired code is such an interleaving *)
 Example C18T_all_interleavings_example :
